@@ -16,6 +16,7 @@ import (
 	"strings"
 	"time"
 
+	"github.com/RoaringBitmap/roaring/roaring64"
 	"github.com/streamingfast/dstore"
 	"github.com/streamingfast/substreams"
 	"github.com/streamingfast/substreams/block"
@@ -32,6 +33,7 @@ import (
 	"github.com/streamingfast/substreams/pipeline/exec"
 	"github.com/streamingfast/substreams/reqctx"
 	"github.com/streamingfast/substreams/storage/execout"
+	"github.com/streamingfast/substreams/storage/index"
 	"github.com/streamingfast/substreams/storage/store"
 	"go.uber.org/zap"
 )
@@ -47,6 +49,7 @@ type genCfg struct {
 	Start   uint64     // resolved start block
 	Hand    uint64     // linear hand-off block
 	Stop    uint64     // exclusive end block (0 = none)
+	Idx     bool       // the output module x is a block-index module (optional 8th field ":i" of g=)
 }
 
 func (g genCfg) String() string {
@@ -66,15 +69,19 @@ func (g genCfg) String() string {
 	if ss == "" {
 		ss = "-"
 	}
-	return fmt.Sprintf("%s:%d:%s:%d:%d:%d:%d", mode, g.K, ss, g.MapInit, g.Start, g.Hand, g.Stop)
+	out := fmt.Sprintf("%s:%d:%s:%d:%d:%d:%d", mode, g.K, ss, g.MapInit, g.Start, g.Hand, g.Stop)
+	if g.Idx {
+		out += ":i" // optional suffix: lines written before the flag existed still parse
+	}
+	return out
 }
 
 func parseGen(s string) genCfg {
 	p := strings.Split(s, ":")
-	if len(p) != 7 {
+	if len(p) != 7 && !(len(p) == 8 && p[7] == "i") {
 		panic("bad g= " + s)
 	}
-	g := genCfg{Prod: p[0] == "p", K: atou(p[1]), MapInit: atou(p[3]), Start: atou(p[4]), Hand: atou(p[5]), Stop: atou(p[6])}
+	g := genCfg{Idx: len(p) == 8, Prod: p[0] == "p", K: atou(p[1]), MapInit: atou(p[3]), Start: atou(p[4]), Hand: atou(p[5]), Stop: atou(p[6])}
 	if p[2] != "-" {
 		for _, st := range strings.Split(p[2], "/") {
 			var ms []uint64
@@ -95,7 +102,8 @@ func atou(s string) uint64 {
 	return n
 }
 
-// file seeds: F<stage>.<mod>:<start>-<end> (full kv), P<stage>.<mod>:<start>-<end> (partial), O:<start>-<end> (mapper output)
+// file seeds: F<stage>.<mod>:<start>-<end> (full kv), P<stage>.<mod>:<start>-<end> (partial), O:<start>-<end> (output of
+// x: the mapper's .output file, or the .index file when x is a block-index module)
 type fileSeed struct {
 	Kind       byte // 'F' 'P' 'O'
 	Stage, Mod int
@@ -150,6 +158,8 @@ func storeInput(n string) *pbsubstreams.Module_Input {
 	return &pbsubstreams.Module_Input{Input: &pbsubstreams.Module_Input_Store_{Store: &pbsubstreams.Module_Input_Store{ModuleName: n, Mode: pbsubstreams.Module_Input_Store_GET}}}
 }
 
+const indexOutputType = "proto:sf.substreams.index.v1.Keys"
+
 func storeName(stage, mod int) string { return fmt.Sprintf("s%dm%d", stage, mod) }
 
 func buildModules(g genCfg) *pbsubstreams.Modules {
@@ -174,6 +184,12 @@ func buildModules(g genCfg) *pbsubstreams.Modules {
 		Kind:   &pbsubstreams.Module_KindMap_{KindMap: &pbsubstreams.Module_KindMap{OutputType: "proto:t"}},
 		Inputs: []*pbsubstreams.Module_Input{srcInput()},
 		Output: &pbsubstreams.Module_Output{Type: "proto:t"},
+	}
+	if g.Idx {
+		// the output module is a block-index module: tier1 builds no cached-output walker, the last stage is still a
+		// "mapper" stage for NewStages (layerKind: not a store layer), its files live in <hash>/index/
+		x.Kind = &pbsubstreams.Module_KindBlockIndex_{KindBlockIndex: &pbsubstreams.Module_KindBlockIndex{OutputType: indexOutputType}}
+		x.Output = &pbsubstreams.Module_Output{Type: indexOutputType}
 	}
 	if n := len(g.Stores); n > 0 {
 		for i2 := range g.Stores[n-1] {
@@ -209,6 +225,7 @@ type world struct {
 
 	storeCfgs store.ConfigMap
 	outCfgs   *execout.Configs
+	idxCfgs   *index.Configs // the index files of a block-index output module (what tier2 builds with index.NewConfigs)
 	stages    [][]modInfo // graph stages: store modules, or [x] for the map stage
 	kinds     []byte      // 'S' / 'M' per graph stage
 
@@ -316,6 +333,10 @@ func newWorld(g genCfg, W int, seeds []fileSeed, dir string) (w *world) {
 	if err != nil {
 		panic(err)
 	}
+	w.idxCfgs, err = index.NewConfigs(base, graph.UsedIndexModules(), graph.ModuleHashes(), 0, nopLogger)
+	if err != nil {
+		panic(err)
+	}
 	for _, f := range seeds {
 		w.writeSeed(f)
 	}
@@ -380,6 +401,16 @@ func (w *world) writePartial(name string, start, end uint64) {
 	}
 }
 func (w *world) writeOutput(start, end uint64) {
+	if w.g.Idx {
+		// what cache.Engine.EndOfStream does for a block-index module: the execout writer saves nothing, the index
+		// writer saves <hash>/index/<start>-<end>.index (real index.File API; an index without keys)
+		f := w.idxCfgs.ConfigMap["x"].NewFile(block.NewRange(start, end))
+		f.Set(map[string]*roaring64.Bitmap{})
+		if err := f.Save(w.ctx); err != nil {
+			panic(err)
+		}
+		return
+	}
 	f := w.outCfgs.ConfigMap["x"].NewFile(block.NewRange(start, end))
 	if err := f.Save(w.ctx); err != nil {
 		panic(err)
@@ -400,6 +431,9 @@ func (w *world) partialExists(name string, start, end uint64) bool {
 	return ok
 }
 func (w *world) outputExists(start, end uint64) bool {
+	if w.g.Idx { // GetExecutionPlan: indexFile.Load(ctx) == nil
+		return w.idxCfgs.ConfigMap["x"].NewFile(block.NewRange(start, end)).Load(w.ctx) == nil
+	}
 	_, err := w.outCfgs.ConfigMap["x"].ReadFile(w.ctx, block.NewRange(start, end))
 	return err == nil
 }
@@ -429,12 +463,16 @@ func (w *world) listFiles() (fulls, partials, outputs []string) {
 					}
 				}
 			} else {
-				ents, _ := os.ReadDir(filepath.Join(w.dir, h, "outputs"))
+				sub, ext := "outputs", ".output"
+				if w.g.Idx {
+					sub, ext = "index", ".index" // execout.NewConfig / index.NewConfig: <hash>/index/<start>-<end>.index
+				}
+				ents, _ := os.ReadDir(filepath.Join(w.dir, h, sub))
 				for _, e := range ents {
 					n := strings.TrimSuffix(e.Name(), ".zst")
 					var end, start uint64
-					if strings.HasSuffix(n, ".output") {
-						fmt.Sscanf(n, "%d-%d.output", &start, &end)
+					if strings.HasSuffix(n, ext) {
+						fmt.Sscanf(n, "%d-%d"+ext, &start, &end)
 						outputs = append(outputs, fmt.Sprintf("%010d-%010d", start, end))
 					}
 				}
@@ -531,25 +569,21 @@ func (f *fakeWorker) Work(ctx context.Context, unit stage.Unit, startBlock uint6
 }
 
 // runJob leaves the files a real tier2 job for (graph stage t, segment seg) leaves (service.GetExecutionPlan,
-// pipeline.setupSubrequestStores, Stores.saveStoresSnapshots): for every store used up to stage t that has
-// neither a full snapshot at the segment end nor its partial: a partial for the stores of stage t, a full
-// snapshot for the stores of lower stages; the mapper output file when t is the mapper stage (nothing at all
-// when that output file already exists).
+// pipeline.setupSubrequestStores, Stores.saveStoresSnapshots, cache.Engine.EndOfStream): for every store used up to
+// stage t that has neither a full snapshot at the segment end nor its partial: a partial for the stores of stage t,
+// a full snapshot for the stores of lower stages; and, when t is the last (mapper) stage and the output module has
+// started, the file of the output module x for [max(start, init), stop) unless it exists already:
+//   - x is a map: <hash>/outputs/<start>-<stop>.output (execout.Writer.Close).  An existing output file no longer
+//     makes the job a no-op (GetExecutionPlan since 6f136481 only skips when no store is left to write): the stores
+//     are written all the same.
+//   - x is a block-index module: <hash>/index/<start>-<stop>.index (index.Writer.Close from EndOfStream; the execout
+//     writer of an index module saves nothing).  GetExecutionPlan never skips such a job (outputModuleDone is only
+//     set for a map); an existing index file is loaded (ExistingIndices) and not rewritten.
 func (w *world) runJob(t int, seg uint64) {
 	k := w.g.K
 	start, stop := seg*k, seg*k+k
 	if t >= len(w.stages) {
 		return
-	}
-	if w.kinds[t] == 'M' {
-		x := w.stages[t][0]
-		if x.Init < stop {
-			ms := max(start, x.Init)
-			if w.outputExists(ms, stop) {
-				return
-			}
-			defer w.writeOutput(ms, stop)
-		}
 	}
 	for j := 0; j <= t; j++ {
 		if w.kinds[j] != 'S' {
@@ -567,6 +601,14 @@ func (w *world) runJob(t int, seg uint64) {
 				w.writePartial(m.Name, ms, stop)
 			} else {
 				w.writeFull(m.Name, stop)
+			}
+		}
+	}
+	if w.kinds[t] == 'M' {
+		x := w.stages[t][0]
+		if x.Init < stop {
+			if ms := max(start, x.Init); !w.outputExists(ms, stop) {
+				w.writeOutput(ms, stop)
 			}
 		}
 	}
